@@ -818,8 +818,8 @@ func (self *_Assembler) escape_string_twice() {
 	self.Emit("MOVQ", _VAR_bs_n, _SI)
 	self.Emit("LEAQ", _VAR_sr, _CX)                          // LEAQ   sr, CX
 	self.Emit("MOVL", jit.Imm(types.F_DOUBLE_UNQUOTE), _R8)  // MOVL   ${types.F_DOUBLE_UNQUOTE}, R8
-	self.Emit("BTQ", jit.Imm(_F_disable_urc), _ARG_fv)       // BTQ    ${_F_disable_urc}, AX
 	self.Emit("XORL", _AX, _AX)                              // XORL   AX, AX
+	self.Emit("BTQ", jit.Imm(_F_disable_urc), _ARG_fv)       // BTQ    ${_F_disable_urc}, fv
 	self.Emit("SETCC", _AX)                                  // SETCC  AX
 	self.Emit("SHLQ", jit.Imm(types.B_UNICODE_REPLACE), _AX) // SHLQ   ${types.B_UNICODE_REPLACE}, AX
 	self.Emit("ORQ", _AX, _R8)                               // ORQ    AX, R8
